@@ -205,6 +205,29 @@ class Ctx:
         self.extra["tlaps_" + module] = {"obligations": n, "discharged": n, "checker_cmd": "tlapm --threads 16 --cleanfp %s.tla" % module}
         return n, n
 
+    def apalache(self, module, init, inv, length, timeout=900, expect_error=False):
+        """apalache-mc check --init=<init> --inv=<inv> --length=<length> spec/<module>.tla (symbolic, unbounded integers)."""
+        d = self.path("apalache_%s_%s_%d" % (module, init, length))
+        os.makedirs(d, exist_ok=True)
+        shutil.copyfile(os.path.join(self.specdir, module + ".tla"), os.path.join(d, module + ".tla"))
+        cmd = ["apalache-mc", "check", "--init=" + init, "--inv=" + inv, "--length=%d" % length, "--out-dir=" + os.path.join(d, "out"), module + ".tla"]
+        t = time.time()
+        try:
+            p = subprocess.run(cmd, cwd=d, stdout=subprocess.PIPE, stderr=subprocess.STDOUT, text=True, timeout=timeout)
+        except subprocess.TimeoutExpired:
+            raise Machinery("apalache timeout on %s (%s, length %d)" % (module, init, length))
+        ok = "The outcome is: NoError" in p.stdout
+        err = "The outcome is: Error" in p.stdout
+        if not ok and not err:
+            raise Machinery("apalache gave no verdict on %s:\n%s" % (module, tail(p.stdout)))
+        log("apalache %s init=%s inv=%s length=%d: %s %.1fs" % (module, init, inv, length, "NoError" if ok else "Error", time.time() - t))
+        if ok == expect_error:
+            raise Machinery("apalache: %s %s/%s length %d: expected %s" % (module, init, inv, length, "a counterexample" if expect_error else "no error"))
+        self.extra.setdefault("apalache", []).append({"module": module, "init": init, "inv": inv, "length": length, "outcome": "NoError" if ok else "Error",
+                                                      "checker_cmd": " ".join(cmd[:5]) + " " + module + ".tla"})
+        shutil.rmtree(os.path.join(d, "out"), ignore_errors=True)
+        return ok
+
     # ---------------------------------------------------------------- harness
     def harness(self, args, timeout=1800, env=None, check=True):
         e = goenv()
